@@ -282,7 +282,7 @@ def stepThread (s : Shared) (t : Thread) (tid : Tid) (alt : Bool) : StepResult :
     match t.prog with
     | .producer src _ => some ("start", s, { t with pc := .sAcq, src := src })
     | .getLoop => some ("start", s, { t with pc := .gAcq })
-    | .batchLoop _ _ => some ("start", s, { t with pc := .bAcq, result := [] })
+    | .batchLoop _ _ => some ("start", s, { t with pc := .bAcq })
     | .stopper _ => some ("start", s, { t with pc := .mAcq })
   -- ---------------------------------------------------------------- get_nowait
   | .nAcq c => if alt then none else acquire s t tid .st (goto (.nGet c))
